@@ -11,6 +11,7 @@ VERIF = os.path.dirname(os.path.dirname(os.path.dirname(os.path.abspath(__file__
 FIXTURE_KINDS = {
     "CONSTANT_TABLE": "constant", "_REGISTRY": "import-time", "_STATISTICS": "write-only", "_PURE_MEMO": "memo",
     "_BAD_KEY_MEMO": "memo-key-incomplete", "_FILE_MEMO": "memo-of-outside-data", "_BUFFER": "shared", "_counter": "shared",
+    "Collector.NAMES": "constant", "Collector._seen": "shared",
 }
 
 
